@@ -409,13 +409,24 @@ impl HuginnNetTls {
         let mut pcap_reader = PcapReader::new(file)
             .map_err(|e| HuginnNetTlsError::Parse(format!("Failed to create PCAP reader: {e}")))?;
 
+        // A read error (e.g. a capture cut short in the middle of a record) is reported once and ends
+        // the input: the reader cannot resynchronise and would return the same error forever.
+        let mut failed = false;
         self.process_with(
-            move || match pcap_reader.next_packet() {
-                Some(Ok(packet)) => Some(Ok(packet.data.to_vec())),
-                Some(Err(e)) => {
-                    Some(Err(HuginnNetTlsError::Parse(format!("Error reading PCAP packet: {e}"))))
+            move || {
+                if failed {
+                    return None;
                 }
-                None => None,
+                match pcap_reader.next_packet() {
+                    Some(Ok(packet)) => Some(Ok(packet.data.to_vec())),
+                    Some(Err(e)) => {
+                        failed = true;
+                        Some(Err(HuginnNetTlsError::Parse(format!(
+                            "Error reading PCAP packet: {e}"
+                        ))))
+                    }
+                    None => None,
+                }
             },
             sender,
             cancel_signal,
